@@ -196,6 +196,10 @@ def run_case(case, model):
             hits.append(hit('c10.reply-paired-with-wrong-command', 'a returned Reply holds another command\'s reply',
                             observed={'slot': k, 'method': None, 'code': code, 'text': raw}, expected=reps[k].decode('latin-1')))
             break
+    if failed == 'BadReply' or failed.startswith('other:'):
+        # every reply of the script is well formed: the client has no reason to reject one
+        hits.append(hit('c10.well-formed-reply-rejected.' + failed.replace('other:', ''), 'the client failed on a script of well-formed replies',
+                        observed={'failed': failed, 'filled': iview[-2:], 'cuts': case['cuts'][:8]}))
     nparsed = len(iview)
     owed = len(returned)
     consumed = len(stream) - len(rest)
